@@ -174,16 +174,29 @@ func (e *pvEnv) concretise(conn int, m pvMsg) []byte {
 			pt = [][]byte{{1}, {1, 9, 65}, {10, 64, 1, 2, 3}}[e.r.Intn(3)]
 		} else {
 			var sig []byte
-			switch m.SigKind {
-			case "valid":
+			genuineSig := func() []byte {
 				ce := make([]byte, 32)
 				if m.CE >= 0 {
 					ce = refX25519Pub(e.eph(m.CE))
 				}
 				info := append(append(append([]byte{}, ce...), []byte(e.name(m.SigName))...), e.accPub[m.AccConn]...)
-				sig = ed25519.Sign(e.ident(m.Signer).Priv, info)
-			case "garbage":
-				sig = randBytes(e.r, 64)
+				return ed25519.Sign(e.ident(m.Signer).Priv, info)
+			}
+			switch m.SigKind {
+			case "valid":
+				sig = genuineSig()
+			case "garbage": // not a signature: random bytes, or a genuine one with junk appended / cut short / a bit flipped
+				switch m.N % 4 {
+				case 0:
+					sig = randBytes(e.r, 64)
+				case 1:
+					sig = append(genuineSig(), randBytes(e.r, 3)...)
+				case 2:
+					sig = genuineSig()[:63]
+				default:
+					sig = genuineSig()
+					sig[e.r.Intn(64)] ^= 1 << uint(e.r.Intn(8))
+				}
 			}
 			items := []tlvOp{{tID, []byte(e.name(m.Name))}}
 			if sig != nil {
